@@ -8,6 +8,7 @@ import (
 	"fmt"
 	"hash"
 	"io"
+	"os"
 	"testing"
 
 	"github.com/ethereum/go-ethereum/internal/verif/mc"
@@ -159,6 +160,16 @@ type c04Case struct {
 	J    int    `json:"j"`
 }
 
+// c04Stop ends the enumeration early once the verdict is already a failure (keeps
+// failing runs and their replays short); the run is then reported as not exhaustive.
+func c04Stop(r *mc.R) bool {
+	if r.Violations() > 40 {
+		r.NotExhaustive("stopped early after more than 40 violations")
+		return true
+	}
+	return false
+}
+
 func c04Near(n int) bool {
 	for _, m := range []int{c04Rate, 2 * c04Rate, 3 * c04Rate} {
 		if n >= m-3 && n <= m+3 {
@@ -178,6 +189,11 @@ func TestVerif_C04(t *testing.T) {
 		maxN := mc.Pick(r, 3*c04Rate+8, 5*c04Rate+8)
 		full3 := mc.Pick(r, c04Rate+64, 3*c04Rate+8) // every 3-split up to this length
 		maxRead := mc.Pick(r, 2*c04Rate+28, 3*c04Rate+8)
+		// The sponge code is the same in the assembly and the purego build; the purego step therefore repeats only
+		// the whole-message and 2-split part of the sponge enumeration (which drives the generic permutation through
+		// the sponge) and the full permutation comparison.
+		reduced := os.Getenv("C04_REDUCED_SPONGE") == "1"
+		r.Bound("sponge_enumeration", map[bool]string{false: "full", true: "oneshot+2-splits+reset only"}[reduced])
 		r.Rule("sponge: patterns{lcg,ff,00} x every length n in 0..maxN; per (pattern,n): every 2-split with Sum after each " +
 			"write (on a fresh and on a reused+Reset state), every 3-split (n<=full3 or n within 3 of a rate multiple), Reset after " +
 			"every prefix, Reset after Read; Read: for n in a boundary set, every output length L<=maxRead in every 2-split of the " +
@@ -236,6 +252,9 @@ func TestVerif_C04(t *testing.T) {
 			reused := NewLegacyKeccak256().(c04Reader)
 			var oc [8]int64
 			prefix := []byte{0xAA, 0xBB, 0xCC}
+			if c04Stop(r) {
+				return
+			}
 
 			// whole message, one write
 			r.Case(c04Case{Kind: "oneshot", Pat: pn, N: n}, func() error {
@@ -323,8 +342,8 @@ func TestVerif_C04(t *testing.T) {
 			}
 
 			// every 3-split
-			if n <= full3 || c04Near(n) {
-				for i := 0; i <= n; i++ {
+			if !reduced && (n <= full3 || c04Near(n)) {
+				for i := 0; i <= n && !c04Stop(r); i++ {
 					for j := i; j <= n; j++ {
 						r.Case(c04Case{Kind: "split3", Pat: pn, N: n, I: i, J: j}, func() error {
 							h := reused
@@ -352,10 +371,10 @@ func TestVerif_C04(t *testing.T) {
 			}
 
 			// Read in two pieces of every total length
-			if readSet[n] {
+			if readSet[n] && !reduced {
 				stream := ref[p][n]
 				out := make([]byte, maxRead)
-				for l := 0; l <= maxRead; l++ {
+				for l := 0; l <= maxRead && !c04Stop(r); l++ {
 					for i := 0; i <= l; i++ {
 						r.Case(c04Case{Kind: "read-split", Pat: pn, N: n, I: i, J: l}, func() error {
 							h := reused
@@ -391,7 +410,7 @@ func TestVerif_C04(t *testing.T) {
 				r.Sample(map[string]any{"pattern": pn, "n": n, "digest": fmt.Sprintf("%x", want)})
 			}
 		})
-		if r.Expired() {
+		if r.Expired() || c04Stop(r) {
 			return
 		}
 		c04Permutation(r)
@@ -436,7 +455,7 @@ func c04Permutation(r *mc.R) {
 				}
 			}
 			for k := 0; k < chain; k++ {
-				if k&1023 == 0 && r.Expired() {
+				if k&1023 == 0 && (r.Expired() || c04Stop(r)) {
 					return
 				}
 				st = check("perm-dense", lane-25, k, st)
@@ -446,7 +465,7 @@ func c04Permutation(r *mc.R) {
 			return
 		}
 		var s, l, c int64
-		for b := 0; b < 64; b++ {
+		for b := 0; b < 64 && !c04Stop(r); b++ {
 			var st [25]uint64
 			st[lane] = 1 << uint(b)
 			check("perm-1bit", lane, b, st)
@@ -466,7 +485,7 @@ func c04Permutation(r *mc.R) {
 			}
 		}
 		for lane2 := lane + 1; lane2 < 25; lane2++ {
-			if r.Expired() {
+			if r.Expired() || c04Stop(r) {
 				return
 			}
 			for _, b := range crossBits {
